@@ -68,6 +68,16 @@ def compare(rep, exe, plans, label="expand"):
                     rep.count("theorem-instances-checked:C01_itemsOK_of_expand")
                     if not items_ok:
                         rep.broken.append("instance of C01_itemsOK_of_expand false in the executable model: " + p.invocation_text()[:400])
+            if len(mv) > 7 and mv[7]:
+                # C16_kinds_align_family: helper trait parameters vs every helper impl's printed arguments and the main impl's helper reference
+                hyp_, concl_, fresh_ = (x == "1" for x in mv[7][:3])
+                rep.count("keyNamesFresh=" + str(int(fresh_)))
+                if hyp_:
+                    rep.count("theorem-instances-checked:C16_kinds_align_family")
+                    if not concl_:
+                        rep.broken.append("instance of C16_kinds_align_family false in the executable model: " + p.invocation_text()[:400])
+                else:
+                    rep.count("theorem-not-applicable:C16_kinds_align_family (familyKindsMatch_ha fails)")
             # helper trait (trait mode)
             if mv[0][0] == "unmodelled":
                 rep.count(label + ":helper-trait-unmodelled")
